@@ -154,7 +154,8 @@ def run(ctx):
                         witness = "character consumed"
                 # delegation to a total parser on the whole field
                 if sym.contains(e, lambda y: y[0] == "call" and y[1] == "str::parse" and y[2] == (sparam,)):
-                    if isinstance(v, int) and v == 0:
+                    through_ok = sym.contains(e, lambda y: y[0] == "call" and y[1].endswith("Result<T, E>::ok") and y[2][0][0] == "call" and y[2][0][1] == "str::parse")
+                    if isinstance(v, int) and ((v == 0 and not through_ok) or (v == 1 and through_ok and e[0] == "discr")):
                         witness = "delegated to str::parse (rejects empty input)"
                 # delegation of a piece of the field to a sub-stage that succeeded (the sub-stage is held to this rule itself)
                 subs = sym.subterms(e, lambda y: y[0] == "call" and y[1] in stages and y[1] != st)
